@@ -28,7 +28,8 @@ def strategy(tier):
 
     hist = ["povm", "povm", "povm", "op", "measure", "struct", "comp", "kraus"]
     return st.one_of(S.program_case(["povm", "povm", "povm", "op"], max_steps=3), S.program_case(hist, max_steps=5, min_steps=2),
-                     S.lifecycle_case(tail_kinds=("povm", "povm", "op"), max_tail=3))
+                     S.lifecycle_case(tail_kinds=("povm", "povm", "op"), max_tail=3),
+                     S.survivor_case(touches=("povm", "povm", "resize", "fockop")))
 
 
 def run_case(case):
